@@ -56,7 +56,7 @@ def distances(r):
 
 def plan(tier, seed):
     rs = resolutions(tier, seed)
-    shards = [(r, fp) for r in rs for fp in range(4)]
+    shards = [(r, fp) for r in rs for fp in range(4)] + [("env", r) for r in (1, 7, 192, 480)]
     return dict(shards=shards, bounds=dict(resolutions=(rs if len(rs) < 50 else "1..400 + %r" % [r for r in rs if r > 400])), budget_s=1500 if tier == "thorough" else 300)
 
 
@@ -80,7 +80,48 @@ def pair_text(r, a, fa, b, fb, d, sa=0, sb=0):
     return mk(res=r, tracks={"ExpertSingle": body})
 
 
+# environments and tick magnitudes the rule does not mention
+ENVS = (
+    ("sub-microsecond ticks", lambda r: ["0 = TS 4", "0 = B 10000000000"]),
+    ("slow", lambda r: ["0 = TS 4", "0 = B 1000"]),
+    ("tempo change between the two notes of every pair", None),
+)
+BASES = (0, 2**31 - 5, 2**32 - 5, 2**62)
+
+
+def _env_shard(ctx, r):
+    thr = (r + 1) // 3
+    gap = 10 * r + 50
+    for d in distances(r):
+        for ei, (ename, mksync) in enumerate(ENVS):
+            for base in BASES if ei == 0 else (0,):
+                ctx.node()
+                body = note_lines(base, (0,))
+                exp = ["STRUM"]
+                t = base + gap
+                changes = []
+                for a in COMBOS:
+                    for b in COMBOS:
+                        body += note_lines(t, a, ()) + note_lines(t + d, b, ())
+                        if d > 1:
+                            changes.append(t + 1)
+                        exp += ["STRUM", rule(a, (), b, (), d, thr)]
+                        t += d + gap
+                sync = mksync(r) if mksync else ["0 = TS 4", "0 = B 120000"] + ["%d = B %d" % (c, 60000 + 1000 * (k % 50)) for k, c in enumerate(changes)]
+                text = mk(res=r, sync=sync, tracks={"ExpertSingle": body})
+                got = e1.run_probe(probe, text)
+                ctx.executions += 1
+                ctx.node(1024)
+                ctx.evaluations += len(exp)
+                ctx.nontrivial += 1024
+                ctx.hist["environment_tracks"] += 1
+                if got != exp:
+                    e1.report(ctx, "decision-packed", text, PROBE_SRC, [exp], got if len(str(got)) < 400 else str(got)[:400], "resolution %d distance %d in environment %r, first tick %d" % (r, d, ename, base))
+
+
 def run_shard(shard, ctx):
+    if shard[0] == "env":
+        return _env_shard(ctx, shard[1])
     r, fpi = shard
     fa = FLAGS[fpi]
     thr = (r + 1) // 3
